@@ -1016,6 +1016,11 @@ class DataFrame:
         return DataFrame(self)
 
     @property
+    def T(self):
+        # only ever consumed as array data by the anchored code (assignment into an ndarray slice)
+        return self.to_numpy().T
+
+    @property
     def iloc(self):
         return _DFILoc(self)
 
